@@ -82,15 +82,16 @@ def make_times(rng, brks, scale_last):
     ts = [0.0]
     for b in tb:
         ts.append(b)
-        ts.append(float(np.nextafter(b, np.inf)))
+        ts.append(float(np.nextafter(b, np.inf)) if b > 0 else 1e-200)      # no subnormals
         if b > 0:
             ts.append(float(np.nextafter(b, 0.0)))
     for lo, hi in zip(tb[:-1], tb[1:]):
         ts.append(lo + (hi - lo) * rng.random())
     top = tb[-1] if tb[-1] > 0 else scale_last
     ts += [top * (1 + rng.random()), top * 10.0 ** rng.uniform(0, 3), top + scale_last * rng.random()]
-    rng.shuffle(ts)
-    return [float(t) for t in ts[:20]]
+    rest = ts[1:]
+    rng.shuffle(rest)
+    return [0.0] + [float(t) for t in rest[:19]]
 
 
 # ------------------------------------------------------------------ implementation
@@ -220,33 +221,31 @@ def model_gamma(ctx, items):
 
 
 # ------------------------------------------------------------------ definition-level references
-def exact_integral(pop, brks, t):
-    """integral of 1/(2N) from 0 to t, in rational arithmetic on the double inputs; also the largest
-    intermediate magnitude of the code's own formula t/m + step (its rounding scale)"""
-    tb = [Fraction(0)] + [Fraction(b) for b in brks]
-    m = [2 * Fraction(p) for p in pop]
-    T = Fraction(t)
-    i = max(j for j in range(len(tb)) if tb[j] <= T)
-    acc = sum((tb[j + 1] - tb[j]) / m[j] for j in range(i))
-    val = acc + (T - tb[i]) / m[i]
+def ctm_exact(brk, tm, x):
+    """exact value of the change of measure at x for breaks brk / measures tm (doubles, taken
+    exactly), and the largest intermediate magnitude of the code's formula x/m_i + step_i
+    (its rounding scale)"""
+    b = [Fraction(v) for v in brk]
+    m = [Fraction(v) for v in tm]
+    X = Fraction(x)
+    i = max(j for j in range(len(b)) if b[j] <= X)
+    acc = sum((b[j + 1] - b[j]) / m[j] for j in range(i))
+    val = acc + (X - b[i]) / m[i]
     steps = [Fraction(0)]
-    for k in range(len(tb) - 1):
-        steps.append(steps[-1] + tb[k + 1] * (1 / m[k] - 1 / m[k + 1]))
-    scale = max([abs(T / m[i]), abs(steps[i]), abs(val)] + [abs(s) for s in steps[: i + 1]] +
-                [abs(tb[k + 1] / m[k]) for k in range(i)] + [abs(tb[k + 1] / m[k + 1]) for k in range(i)])
+    for k in range(i):
+        steps.append(steps[-1] + b[k + 1] * (1 / m[k] - 1 / m[k + 1]))
+    scale = max([abs(X / m[i]), abs(val)] + [abs(v) for v in steps] +
+                [abs(b[k + 1] / m[k]) for k in range(i)] + [abs(b[k + 1] / m[k + 1]) for k in range(i)])
+    return val, scale, i
+
+
+def exact_integral(pop, brks, t):
+    """integral of 1/(2N) from 0 to t in rational arithmetic on the double inputs (+ rounding scale)"""
+    val, scale, _i = ctm_exact([0.0] + list(brks), [2 * Fraction(p) for p in pop], t)
     return val, scale
 
 
-def exact_inverse(pop, brks, c):
-    """the generation time whose integral is c, in rational arithmetic"""
-    tb = [Fraction(0)] + [Fraction(b) for b in brks]
-    m = [2 * Fraction(p) for p in pop]
-    cb = [Fraction(0)]
-    for j in range(len(tb) - 1):
-        cb.append(cb[-1] + (tb[j + 1] - tb[j]) / m[j])
-    C = Fraction(c)
-    i = max(j for j in range(len(cb)) if cb[j] <= C)
-    return tb[i] + (C - cb[i]) * m[i]
+U = Fraction(2) ** -52
 
 
 def quad_integral(pop, brks, t):
@@ -319,7 +318,7 @@ def oracle_history(ctx, case, out):
     for t, c in zip(case["ts"], co):
         val, scale = exact_integral(pop, brks, t)
         err = abs(Fraction(c) - val)
-        if err > 8 * Fraction(2) ** -52 * scale and err > Fraction(1, 10 ** 300):
+        if err > 8 * U * scale + Fraction(1, 10 ** 290):
             ctx.oracle_fail("not-integral", "to_coalescent_timescale(t) is not the integral of 1/(2N)",
                             dict(rp, t=t, impl=c, expected=float(val), rounding_scale=float(scale)))
             return
@@ -336,38 +335,63 @@ def oracle_history(ctx, case, out):
     # continuity at the breaks: value at the break = coalescent break; neighbours close
     tb = [0.0] + brks
     for i, b in enumerate(tb):
-        r = call(h.to_coalescent_timescale, [b, float(np.nextafter(b, np.inf))] + ([float(np.nextafter(b, 0.0))] if b > 0 else []))
+        if b == 0:
+            continue
+        r = call(h.to_coalescent_timescale, [b, float(np.nextafter(b, np.inf)), float(np.nextafter(b, 0.0))])
         _v, scale = exact_integral(pop, brks, b)
         tol = 16 * 2.0 ** -52 * float(scale) + 4 * 2.0 ** -52 * abs(b) / (2 * min(pop[max(i - 1, 0)], pop[i]))
         if r[0] != out["cb"][i] or any(abs(x - r[0]) > tol for x in r[1:]):
             ctx.oracle_fail("discontinuous", "jump at a break", dict(rp, brk=b, values=r, coalescent_break=out["cb"][i]))
             return
-    # inverse, both directions
+    # inverse, both directions.  Forward error analysis of the code's own formulas: a coalescent
+    # break cb_j carries the rounding of F at b_j (8 ulp of F's largest intermediate term), which
+    # G amplifies by the slopes 2N of the epochs up to the one used; G adds its own rounding.
     na = call(h.to_natural_timescale, co)
     if isinstance(na, str):
-        ctx.oracle_fail("to_natural:" + na, "to_natural_timescale raised on its own image", rp)
+        collide = not K.strictly_increasing(out["cb"])
+        ctx.oracle_fail("to_natural:" + na + (":coalescent-breaks-collide-in-doubles" if collide else ""),
+                        "to_natural_timescale raised on the image of to_coalescent_timescale", dict(rp, coalescent_breaks=out["cb"]))
         return
+    cbd, crd = out["cb"], out["cr"]
+    mF = [2 * Fraction(p) for p in pop]
+    sFb = [ctm_exact(tb, mF, b)[1] for b in tb]
+
+    def tol_G(c):
+        _w, sG, k = ctm_exact(cbd, crd, c)
+        hi = min(k + 2, len(tb))
+        return 32 * U * ((k + 2) * max(mF[:hi]) * max(sFb[:hi]) + sG) + Fraction(1, 10 ** 290), k
+
     for t, c, t2 in zip(case["ts"], co, na):
-        want = exact_inverse(pop, brks, c)                  # exact inverse of the double c
-        _v, sc1 = exact_integral(pop, brks, t)
-        i = max(j for j in range(len(tb)) if Fraction(tb[j]) <= want)
-        scale = max(abs(want), Fraction(2 * pop[i]) * sc1, Fraction(tb[i]))
-        if abs(Fraction(t2) - want) > 16 * Fraction(2) ** -52 * scale:
+        _v, sF, i = ctm_exact(tb, mF, t)
+        tg, k = tol_G(c)
+        tol = tg + 16 * U * max(mF[max(i - 1, 0):i + 2]) * sF + 8 * U * abs(Fraction(t))
+        if abs(Fraction(t2) - Fraction(t)) > tol:
             ctx.oracle_fail("not-inverse", "to_natural_timescale(to_coalescent_timescale(t)) is not t",
-                            dict(rp, t=t, c=c, back=t2, expected=float(want)))
+                            dict(rp, t=t, c=c, back=t2, tolerance=float(tol)))
             return
     na2 = out["na"]
     if isinstance(na2, str):
         ctx.oracle_fail("to_natural:" + na2, "to_natural_timescale raised on non-negative times", rp)
         return
-    for c, t in zip(case["cs"], na2):
-        want = exact_inverse(pop, brks, c)
-        i = max(j for j in range(len(tb)) if Fraction(tb[j]) <= want)
-        cbs = [Fraction(x) for x in out["cb"]]
-        scale = max(abs(want), Fraction(2 * pop[i]) * max(abs(Fraction(c)), cbs[i]), Fraction(tb[i]))
-        if abs(Fraction(t) - want) > 16 * Fraction(2) ** -52 * scale:
-            ctx.oracle_fail("natural-not-inverse-integral", "to_natural_timescale(c) is not the time whose integral is c",
-                            dict(rp, c=c, impl=t, expected=float(want)))
+    co2 = call(h.to_coalescent_timescale, na2)
+    if isinstance(co2, str):
+        ctx.oracle_fail("to_coalescent:" + co2, "to_coalescent_timescale raised on the image of to_natural", rp)
+        return
+    for c, t, c2 in zip(case["cs"], na2, co2):
+        tg, k = tol_G(c)
+        _v, sF, i = ctm_exact(tb, mF, t)
+        lo = min(mF[max(min(i, k) - 1, 0):max(i, k) + 2])
+        tol = tg / lo + 16 * U * sF + 8 * U * abs(Fraction(c))
+        if abs(Fraction(c2) - Fraction(c)) > tol:
+            ctx.oracle_fail("not-inverse-2", "to_coalescent_timescale(to_natural_timescale(c)) is not c",
+                            dict(rp, c=c, t=t, back=c2, tolerance=float(tol)))
+            return
+    # to_natural is strictly increasing too
+    pairs = sorted(zip(case["cs"], na2))
+    for (c0, t0), (c1, t1) in zip(pairs[:-1], pairs[1:]):
+        _w, sG, _k = ctm_exact(cbd, crd, c1)
+        if t1 < t0 - 8 * 2.0 ** -52 * float(sG):
+            ctx.oracle_fail("natural-not-monotone", "to_natural_timescale reversed two times", dict(rp, c=[c0, c1], t=[t0, t1]))
             return
 
 
@@ -390,6 +414,13 @@ def oracle_gamma(ctx, it, res, h):
         ctx.oracle_fail("gamma:" + res, "gamma_to_natural raised on valid parameters", rp)
         return
     shape, rate = it["shape"], it["rate"]
+    if math.isnan(res[0]) or math.isnan(res[1]):
+        gt, gam, pw, ct = gamma_tables(h, shape, rate)
+        factors = [v for _a, v in gam] + [v for _r, _s, v in pw] + [ct[0][2]]
+        bad = any((not math.isfinite(v)) or v == 0.0 for v in factors)
+        ctx.oracle_fail("gamma-nan:" + ("intermediate-factor-out-of-double-range" if bad else "other"),
+                        "gamma_to_natural returned nan", dict(rp, factors=factors))
+        return
     if len(it["pop"]) == 1:
         want = (shape, rate / (2 * it["pop"][0]))
         if not (K.close(res[0], want[0], rel=1e-7 * max(1.0, shape)) and K.close(res[1], want[1], rel=1e-7 * max(1.0, shape))):
@@ -425,7 +456,8 @@ def history_block(ctx, model_ok, n, n_invalid):
         else:
             # coalescent times: images of the times, the coalescent breaks and their neighbours
             cb = [float(x) for x in h.coalescent_breaks]
-            cs = list(cb) + [float(np.nextafter(x, np.inf)) for x in cb] + [float(np.nextafter(x, 0.0)) for x in cb if x > 0]
+            cs = list(cb) + [float(np.nextafter(x, np.inf)) if x > 0 else 1e-200 for x in cb] + \
+                [float(np.nextafter(x, 0.0)) for x in cb if x > 0]
             cs += [cb[-1] + 10.0 ** ctx.rng.uniform(-3, 3) for _ in range(3)]
             ctx.rng.shuffle(cs)
             c["cs"] = cs[:16]
@@ -471,10 +503,12 @@ def gamma_block(ctx, model_ok, cases, outs, n, n_quad):
     for k in range(n):
         c, o = ctx.rng.choice(valid)
         h = o["obj"]
-        shape = ctx.rng.choice([0.3, 1.0, 2.0, 5.5, 30.0, 200.0, 10.0 ** ctx.rng.uniform(-0.5, 2)])
+        shape = ctx.rng.choice([0.3, 1.0, 2.0, 5.5, 30.0, 120.0, 10.0 ** ctx.rng.uniform(-0.5, 2)] + ([200.0] if k % 40 == 7 else []))
         cb = [float(x) for x in h.coalescent_breaks]
         centre = ctx.rng.choice(cb[1:] + [cb[-1] * 3 + 1.0, 0.3 * (cb[1] if len(cb) > 1 else 1.0)])
         rate = shape / centre if centre > 0 else shape
+        if (shape + 2) * abs(math.log10(rate)) > 250:         # rate ** (shape + 2) must not overflow / underflow
+            rate = 10.0 ** math.copysign(250.0 / (shape + 2), math.log10(rate))
         it = {"pop": c["pop"], "brks": c["brks"], "shape": float(shape), "rate": float(rate), "h": h,
               "quad": k < n_quad and c["style"] in ("near", "float") and shape <= 60 and len(c["pop"]) >= 2
               and max(c["pop"]) / min(c["pop"]) < 1e3}
